@@ -10,6 +10,7 @@ import SlocModel.Driver.Remote
 import SlocModel.Driver.Cache
 import SlocModel.Driver.GitDiff
 import SlocModel.Driver.Gate
+import SlocModel.Driver.Report
 open SlocModel.Driver
 
 def dispatch (line : String) : String :=
@@ -50,6 +51,11 @@ def dispatch (line : String) : String :=
       | "gate" => handleGate args
       | "preset" => handlePreset args
       | "date" => handleDate args
+      | "summary" => handleSummary args
+      | "rows" => handleRows args
+      | "breakdown" => handleBreakdown args
+      | "escape" => handleEscape args
+      | "owner" => handleOwner args
       | _ => some "bad-op"
     r.getD "bad-args"
   | [] => "bad-op"
